@@ -11,6 +11,6 @@ Extraction "model.ml"
   h_length h_len h_is_empty h_address_family h_address_bytes h_tlv_bytes h_as_bytes h_to_owned
   addresses_len addresses_is_empty family_to_u16 version_or_command protocol_or_family family_code
   is_incomplete2 is_complete2
-  write_to to_bytes brun z_of_digits
+  write_to to_bytes brun z_of_digits item_ok_b item_payload_b
   enc_payload oversize expected_output body in_force payloads wire
   v2_spec v2_possible spec_address_bytes spec_tlv_section walk.
